@@ -174,6 +174,20 @@ def random_rotation(rng):
     return Rotation.random(random_state=int(rng.integers(2 ** 31))).as_matrix()
 
 
+POLAR_POINT_GROUPS = {"1", "2", "m", "mm2", "4", "4mm", "3", "3m", "6", "6mm"}
+
+
+def is_polar(sg):
+    """space groups whose origin floats along at least one direction: an atom can sit at parameter value exactly 0"""
+    import spglib
+
+    for h in range(1, 531):
+        t = spglib.get_spacegroup_type(h)
+        if t.number == sg:
+            return t.pointgroup_international in POLAR_POINT_GROUPS
+    return False
+
+
 def primitive_of(atoms):
     """the same crystal described in a primitive cell (spglib, no idealisation); the input itself if that fails"""
     import spglib
@@ -192,7 +206,7 @@ def primitive_of(atoms):
         return atoms
 
 
-def present(atoms, rng, p_index=None, rotate=True, translate=True, permute=True, unwrap=False, primitive=False):
+def present(atoms, rng, p_index=None, rotate=True, translate=True, permute=True, unwrap=False, primitive=False, origin_on_atom=False):
     """Another description of the same crystal: supercell / basis change P, proper rotation, translation,
     permutation, optionally atoms shifted out of the cell by lattice vectors."""
     from ase.build import make_supercell
@@ -210,6 +224,12 @@ def present(atoms, rng, p_index=None, rotate=True, translate=True, permute=True,
         a2.wrap()
     else:
         a2 = make_supercell(atoms, P, wrap=True) if p_index else atoms.copy()
+    if origin_on_atom:
+        # the textbook convention for polar groups: the origin sits on an atom, so its free coordinates along the polar
+        # directions are exactly 0 (a legitimate parameter value); no further translation
+        a2.positions -= a2.positions[int(rng.integers(len(a2)))].copy()
+        a2.wrap()
+        translate = False
     if rotate:
         R = random_rotation(rng)
         a2.set_cell(a2.cell[:] @ R.T, scale_atoms=True)
@@ -222,8 +242,11 @@ def present(atoms, rng, p_index=None, rotate=True, translate=True, permute=True,
         a2.positions += shifts @ a2.cell[:]
     if permute:
         a2 = a2[rng.permutation(len(a2))]
+    from .structures import decorate
+
+    a2 = decorate(a2)
     return a2, {"P": PRESENT_P[p_index], "p_index": p_index, "rotate": rotate, "translate": translate,
-                "permute": permute, "unwrap": unwrap, "primitive": bool(primitive)}
+                "permute": permute, "unwrap": unwrap, "primitive": bool(primitive), "origin_on_atom": bool(origin_on_atom)}
 
 
 def qgrid(scaled):
